@@ -94,6 +94,7 @@ def _run(prog):
         return [tn, has, ser, strict]
 
     keep = []
+    shared = {}
     for op in prog:
         k = op[0]
         exc = None
@@ -108,7 +109,11 @@ def _run(prog):
             elif k == "attach_class":
                 _, c, T, s = op
                 ev.update(cls=c, T=T, s=s)
-                comp = TYPES[T](None, model if s % 2 else Model())       # components built for different models
+                # a serial names ONE component object: attaching serial s of type T to a second class hands over the very
+                # same object (classes may share a component object; each class still owns its own attachment)
+                comp = shared.get((T, s))
+                if comp is None:
+                    comp = shared[(T, s)] = TYPES[T](None, model if s % 2 else Model())       # components built for different models
                 keep.append(comp)
                 serial[id(comp)] = s
                 cls[c].add_class_component(comp)
@@ -127,7 +132,14 @@ def _run(prog):
                     a = Environment(model)
                     ev["explicit"] = False
                 else:
-                    a = cls[c]("i%d" % len(insts), model, tag=t) if explicit else cls[c]("i%d" % len(insts), model)
+                    if explicit:
+                        a = cls[c]("i%d" % len(insts), model, tag=t)
+                    elif len(insts) % 3 == 1:
+                        a = cls[c]("i%d" % len(insts), model, tag=None)       # "no tag given", spelled out (forwarding constructors do this)
+                    elif len(insts) % 3 == 2:
+                        a = cls[c]("i%d" % len(insts), model, None)
+                    else:
+                        a = cls[c]("i%d" % len(insts), model)
                 insts.append((c, a))
             elif k == "attach_inst":
                 _, i, T, s = op
@@ -165,8 +177,13 @@ def random_program(rng, length=14):
         if r < 0.04:
             prog.append(["define"])
         elif r < 0.25:
-            ser += 1
-            prog.append(["attach_class", c, T, ser])
+            earlier = [op for op in prog if op[0] == "attach_class"]
+            if earlier and rng.random() < 0.3:
+                e = rng.choice(earlier)
+                prog.append(["attach_class", c, e[2], e[3]])      # the same component object, attached to (another) class
+            else:
+                ser += 1
+                prog.append(["attach_class", c, T, ser])
         elif r < 0.38:
             prog.append(["detach_class", c, T])
         elif r < 0.58:
